@@ -66,3 +66,30 @@ Print Assumptions C14_echo.
 Theorem C14_formats : forall af sf, ~ valid_format af \/ ~ valid_format sf -> mk_alfid af sf = inl EValue.
 Proof. exact mk_alfid_bad. Qed.
 Print Assumptions C14_formats.
+
+(* ---- the code is the model (regenerated each run): the decision trees tools/symtrans.py obtains by executing the functions of
+   udsoncan/common/MemoryLocation.py and AddressAndLengthFormatIdentifier.py on symbolic arguments are the model's functions ---- *)
+From UDS Require Import Gen.Fn_MemLoc Proofs.Tie_memloc.
+
+Theorem C14_code_autosize_address : forall v, fn_autosize_address v = autosize v.
+Proof. exact tie_autosize_address. Qed.
+Print Assumptions C14_code_autosize_address.
+Theorem C14_code_autosize_memorysize : forall v, fn_autosize_memorysize v = autosize v.
+Proof. exact tie_autosize_memorysize. Qed.
+Print Assumptions C14_code_autosize_memorysize.
+(* MemoryLocation(a, s, af, sf) then set_format_if_none(ca, cs): explicit format, else configured, else automatic *)
+Theorem C14_code_formats : forall a s af sf ca cs,
+  fn_memloc_formats a s af sf ca cs = (m <- mk_memloc a s af sf ;; m2 <- set_format_if_none m ca cs ;; ret (obs_formats m2)).
+Proof. exact tie_memloc_formats. Qed.
+Print Assumptions C14_code_formats.
+Theorem C14_code_alfid_byte : forall af sf, fn_alfid_byte af sf = (al <- mk_alfid af sf ;; alfid_byte al).
+Proof. exact tie_alfid_byte. Qed.
+Print Assumptions C14_code_alfid_byte.
+Theorem C14_code_address_bytes : forall a af,
+  fn_addr_bytes a af = (al <- mk_alfid af 8 ;; addr_bytes {| ml_addr := a; ml_size := 0; ml_af := Some af; ml_sf := Some 8; ml_alfid := al |}).
+Proof. exact tie_addr_bytes. Qed.
+Print Assumptions C14_code_address_bytes.
+Theorem C14_code_memorysize_bytes : forall s sf,
+  fn_size_bytes s sf = (al <- mk_alfid 8 sf ;; size_bytes {| ml_addr := 0; ml_size := s; ml_af := Some 8; ml_sf := Some sf; ml_alfid := al |}).
+Proof. exact tie_size_bytes. Qed.
+Print Assumptions C14_code_memorysize_bytes.
